@@ -163,8 +163,9 @@ CmdLMove(s, now, a) ==
   IF Len(a) # 5 THEN One(RErr, s, "lmove.arity")
   ELSE LET wf == Lower(a[4]) wt == Lower(a[5]) src == a[2] dst == a[3] IN
     IF ~(wf \in {L_left, L_right}) \/ ~(wt \in {L_left, L_right}) THEN One(RErr, s, "lmove.syntax")
-    ELSE IF WrongFor(s, src, "list") \/ WrongFor(s, dst, "list") THEN One(RWrong, s, "lmove.wrongtype")
-    ELSE IF ~Has(s, src) THEN One(RNil, s, "lmove.missing")
+    ELSE IF WrongFor(s, src, "list") THEN One(RWrong, s, "lmove.wrongtype")
+    ELSE IF ~Has(s, src) THEN One(RNil, s, "lmove.missing")   \* "If source does not exist, the value nil is returned and no operation is performed"
+    ELSE IF WrongFor(s, dst, "list") THEN One(RWrong, s, "lmove.wrongtype")
     ELSE LET q == Val(s, src)
              e == IF wf = L_left THEN q[1] ELSE q[Len(q)]
              rest == IF wf = L_left THEN Tail(q) ELSE Take(q, Len(q) - 1)
